@@ -198,3 +198,56 @@ V("C12", "primitive atoms not wrapped", "R12.2", (SYM, "        prim_sys.wrap()\
 V("C12", "letters sliced by another mask", "R12.3", (SYM, "        prim_wyckoff = conv_wyckoff[inside_mask]", "        prim_wyckoff = conv_wyckoff[conv_to_prim_map]"))
 V("C12", "original letters without permutation", "R12.4", (SYM, "            new_wyckoff = permutations[old_wyckoff]", "            new_wyckoff = old_wyckoff"))
 V("C12", "primitive system from spglib letters", "R12.4", (SYM, "        conv_wyckoff = self.get_wyckoff_letters_conventional()\n        conv_equivalent", "        conv_wyckoff = self._get_spglib_wyckoff_letters_conventional()\n        conv_equivalent"))
+
+# ------------------------------------------------------------------------------------------ C11
+V("C11", "wrap dropped in the 2D branch", "R11.1", (SYM, "            ideal_sys.translate(translation)\n            ideal_sys.wrap()\n", "            ideal_sys.translate(translation)\n"))
+V("C11", "centring dropped", "R11.1", (SYM, "            ideal_sys.translate(translation)\n            ideal_sys.wrap()\n", "            ideal_sys.wrap()\n"))
+V("C11", "swap dropped", "R11.1", (SYM, "            if non_periodic_dim != swap_dim:\n                matid.geometry.swap_basis(ideal_sys, non_periodic_dim, swap_dim)\n", ""))
+V("C11", "swap to axis 0", "R11.1", (SYM, "            swap_dim = 2\n", "            swap_dim = 0\n"))
+V("C11", "minimisation dropped", "R11.1", (SYM, "            self._conventional_system = min_conv_cell\n            self._conventional_wyckoff_letters = ideal_wyckoff\n            self._conventional_equivalent_atoms = equivalent_atoms\n            return self._conventional_system",
+                                           "            self._conventional_system = ideal_sys\n            self._conventional_wyckoff_letters = ideal_wyckoff\n            self._conventional_equivalent_atoms = equivalent_atoms\n            return self._conventional_system"))
+V("C11", "min thickness hard-coded", "R11.1", (SYM, "                ideal_sys, swap_dim, self.min_2d_thickness\n", "                ideal_sys, swap_dim, 1\n"))
+V("C11", "final pbc stays fully periodic", "R11.1", (SYM, "            ideal_sys.set_pbc(conv_pbc)\n", "            ideal_sys.set_pbc(True)\n"))
+V("C11", "wrong axis made non-periodic", "R11.2", (SYM, "            conv_pbc[nonperiodic_axis] = False", "            conv_pbc[i_pbc] = False"))
+V("C11", "translation along all axes", "R11.2", (SYM, "            translation[conv_pbc] = 0\n", ""))
+V("C11", "symmetry_tol not used", "R11.3", (SYM, "                spglib.get_symmetry_dataset, description, self.symmetry_tol\n", "                spglib.get_symmetry_dataset, description, constants.SYMMETRY_TOL\n"))
+V("C11", "vacuum padded on the caller's atoms", "R11.3", (SYM, "            symmetry_broken_system = system.copy()", "            symmetry_broken_system = system"))
+V("C11", "2D prefix dropped", "R11.4", (SYM, "        if self.n_pbc == 2:\n            string = f\"2D {string}\"\n", ""))
+V("C11", "twin: swap target as literal", "silent", (SYM, "                ideal_sys, swap_dim, self.min_2d_thickness\n", "                ideal_sys, 2, self.min_2d_thickness\n"))
+
+# ------------------------------------------------------------------------------------------ C10
+CEL = "matid/ext/celllist.cpp"
+GCP = "matid/ext/geometry.cpp"
+V("C10", "factors and distances swapped in the return", "R10.1", (GEO, "    if return_factors:\n        result.append(factors)\n    if return_distances:\n        result.append(dist_mat)",
+                                                                "    if return_distances:\n        result.append(dist_mat)\n    if return_factors:\n        result.append(factors)"))
+V("C10", "distance buffer initialised to zero", "R10.1", (GEO, "dist_mat = np.full((n_atoms, n_atoms), float(\"inf\"))", "dist_mat = np.full((n_atoms, n_atoms), 0.0)"))
+V("C10", "buffers swapped in the ext call", "R10.1", (GEO, "        disp_tensor,\n        dist_mat,\n        factors,\n        positions,", "        factors,\n        dist_mat,\n        disp_tensor,\n        positions,"))
+V("C10", "pbc not expanded", "R10.1", (GEO, "        expand_pbc(pbc),\n        cutoff,", "        pbc,\n        cutoff,"))
+V("C10", "call site unpacks too few", "R10.1", (GEO, "        disp_tensor_mic, disp_factors, dist_matrix_mic = get_displacement_tensor(\n            pos, cell, pbc, return_factors=True, return_distances=True\n        )",
+                                                "        disp_tensor_mic, dist_matrix_mic = get_displacement_tensor(\n            pos, cell, pbc, return_factors=True, return_distances=True\n        )\n        disp_factors = np.zeros(disp_tensor_mic.shape)"))
+V("C10", "C++: mirrored displacement not negated", "R10.2", (CEL, "displacements_mu(it.first, i, k) = -displacement[k];", "displacements_mu(it.first, i, k) = displacement[k];"))
+V("C10", "C++: mirror entry of distances dropped", "R10.2", (CEL, "            distances_mu(it.first, i) = distance;\n", ""))
+V("C10", "C++: farthest image kept", "R10.2", (CEL, "distance < get<0>(min_map[j])", "distance > get<0>(min_map[j])"))
+V("C10", "C++: diagonal not zeroed", "R10.2", (CEL, "        distances_mu(i, i) = 0;\n", ""))
+V("C10", "C++: upper clamp off by one in the tensor copy", "R10.3", (CEL, "        int iend = min(i0+1, this->nx-1);\n        int jstart = max(j0-1, 0);\n        int jend = min(j0+1, this->ny-1);\n        int kstart = max(k0-1, 0);\n        int kend = min(k0+1, this->nz-1);\n\n        // Loop over neighbouring bins\n        unordered_map",
+                                                                    "        int iend = min(i0+1, this->nx);\n        int jstart = max(j0-1, 0);\n        int jend = min(j0+1, this->ny-1);\n        int kstart = max(k0-1, 0);\n        int kend = min(k0+1, this->nz-1);\n\n        // Loop over neighbouring bins\n        unordered_map"))
+V("C10", "C++: strict cutoff in the position query only", "R10.3", (CEL, "                    if (distance_squared <= this->cutoffSquared) {\n                        neighbours.push_back(idx);", "                    if (distance_squared < this->cutoffSquared) {\n                        neighbours.push_back(idx);"))
+V("C10", "C++: bins smaller than the cutoff", "R10.3", (CEL, "this->dx = max(this->cutoff, (this->xmax - this->xmin)/this->nx);", "this->dx = (this->xmax - this->xmin)/this->nx;"))
+V("C10", "C++: infinite cutoff extends by the longest vector of any axis", "R10.4", (GCP, "            if (pbc_u(i)) {\n                vector<double> basis", "            if (true) {\n                vector<double> basis"))
+
+# ------------------------------------------------------------------------------------------ C16
+V("C16", "other species accepted as a match", "R16.1", (GEO, "                if closest_atomic_number == atomic_number:\n                    match = closest_index\n                    substitution = None\n                else:",
+                                                        "                if closest_atomic_number != atomic_number:\n                    match = closest_index\n                    substitution = None\n                else:"))
+V("C16", "tolerance doubled", "R16.1", (GEO, "            if closest_distance <= tolerance:\n                closest_atomic_number = atomic_numbers[closest_index]\n                copy_index = closest_factor",
+                                                          "            if closest_distance <= 2 * tolerance:\n                closest_atomic_number = atomic_numbers[closest_index]\n                copy_index = closest_factor"))
+V("C16", "substitution also recorded as a vacancy", "R16.1", (GEO, "        if match is None and substitution is None:\n            vacancies.append", "        if match is None:\n            vacancies.append"))
+V("C16", "copy index of a match from the floor", "R16.1", (GEO, "                copy_index = closest_factor\n", "                copy_index = np.floor(to_scaled(cell, position, wrap=False)[0])\n"))
+V("C16", "first neighbour instead of the nearest", "R16.1", (GEO, "            factors = cell_list_result.factors\n            min_distance_index = np.argmin(distances)", "            factors = cell_list_result.factors\n            min_distance_index = 0"))
+V("C16", "simple matcher ignores the species", "R16.2", (GEO, "                if closest_atomic_number == atomic_number:\n                    match = closest_index\n                    displacement", "                if True:\n                    match = closest_index\n                    displacement"))
+V("C16", "C++: copies along non-periodic axes", "R16.3", (GCP, "            if (pbc_u(i) && lengths[i]) {\n                double length = norm(vectors[i]);", "            if (lengths[i]) {\n                double length = norm(vectors[i]);"))
+V("C16", "C++: floor instead of ceil", "R16.3", (GCP, "                double length = norm(vectors[i]);\n                double factor = cutoff/length;\n                int multiplier = (int)ceil(factor);", "                double length = norm(vectors[i]);\n                double factor = cutoff/length;\n                int multiplier = (int)floor(factor);"))
+V("C16", "C++: negative offsets first", "R16.3", (GCP, "        for (int j=0; j < multiplier + 1; ++j) {\n            multiples.push_back(j);\n        }\n        for (int j=-multiplier; j < 0; ++j) {\n            multiples.push_back(j);\n        }",
+                                                  "        for (int j=-multiplier; j < 0; ++j) {\n            multiples.push_back(j);\n        }\n        for (int j=0; j < multiplier + 1; ++j) {\n            multiples.push_back(j);\n        }"))
+V("C16", "C++: offset factors of b and c swapped", "R16.3", (GCP, "                    factors_mu(index, 1) = b_multiplier;\n                    factors_mu(index, 2) = c_multiplier;", "                    factors_mu(index, 1) = c_multiplier;\n                    factors_mu(index, 2) = b_multiplier;"))
+V("C16", "C++: lower clamp missing in the position query", "R16.4", (CEL, "    int istart = max(i0-1, 0);\n    int iend = min(i0+1, this->nx-1);", "    int istart = i0-1;\n    int iend = min(i0+1, this->nx-1);"))
+V("C16", "python passes cell and pbc swapped", "R16.4", (GEO, "        system.get_cell(),\n        system.get_pbc(),\n        cutoff,\n    )\n\n    return extended_system", "        system.get_pbc(),\n        system.get_cell(),\n        cutoff,\n    )\n\n    return extended_system"))
